@@ -484,6 +484,8 @@ def run(chk, replay=None):
     session(chk)
     from .c13_changer import changer
     changer(chk)
+    from .c13_reservations import reservations
+    reservations(chk)
     # ---- TLC judges ---------------------------------------------------------------------------------------
     vs, st = tlc.judge_traces("Trace_Facade", "Trace_Facade.cfg", calls, name="c13trf")
     ev.judged("Trace_Facade", st, len(calls))
